@@ -8,16 +8,7 @@ from . import common as C
 
 TECHNIQUE = "static analysis: affine index arithmetic of the marker search compared with its specification, slot-wise sibling comparison of the start/end marker branches, marker constants cross-checked between code, emitted marker text and README, inclusive-range arithmetic of --lines, guard-dominates-use of the `mnemonic is None` neutral paths"
 EXPLANATION = (
-    "R1: byte markers: start index = i + 1 + (number of consumed .byte lines), end index = i; comment "
-    "markers: start = i + 1, end = i; reduce_to_section slices [start:end] with -1 mapped to 0 / len; in "
-    "match_bytes the line count and the scan index advance in lockstep. R2: start and end branches are "
-    "identical up to the value slot (mov_vals[0] / mov_vals[1]) and the assigned index, each the conjunction "
-    "immediate value and destination register full name and byte match; operand order follows `reverse`. "
-    "R3: the constants passed by find_marked_kernel_x86ATT / AArch64 equal the marker text emitted by "
-    "get_marker and the README's marker blocks (111/222, ebx/x1, 100,103,144 / 213,3,32,31, OSACA-BEGIN/END). "
-    "R4: --lines ranges are inclusive (end + 1), ':' is '-', comma separated, selection by line_number "
-    "membership. R5: each semantic stage tests `mnemonic is None` before touching mnemonic/operands and "
-    "yields the neutral value; the summary skips zero-throughput lines."
+    "R1: byte markers: start index = i + 1 + (number of consumed .byte lines), end index = i; comment markers: start = i + 1, end = i; reduce_to_section slices [start:end] with -1 mapped to 0 / len; in match_bytes the line count and the scan index advance in lockstep. R2: start and end branches are identical up to the value slot (mov_vals[0] / mov_vals[1]) and the assigned index, each the conjunction immediate value and destination register full name and byte match; operand order follows `reverse`. R3: the constants passed by find_marked_kernel_x86ATT / AArch64 equal the marker text emitted by get_marker and the README's marker blocks (111/222, ebx/x1, 100,103,144 / 213,3,32,31, OSACA-BEGIN/END). R4: --lines ranges are inclusive (end + 1), ':' is '-', comma separated, selection by line_number membership. R5: each semantic stage tests `mnemonic is None` before touching mnemonic/operands and yields the neutral value; the summary skips zero-throughput lines. R6: --lines selects by line_number, so the numbering rule of the parser (C09-R1: physical position + 1 + start_line, blank lines counted) is re-checked here."
 )
 NOT_DECIDED = "End-to-end equality of the three analyses (marked file, --lines, extracted file) on real inputs."
 ASSUMPTIONS = ["parsed directive parameters of a `.byte` line are the byte literals (C09/C10)"]
@@ -308,3 +299,6 @@ def run(ctx):
     _r3(ctx)
     _r4(ctx)
     _r5(ctx)
+    # R6: --lines selects by the parsed lines' line_number: it names the file's lines only if the numbering is the physical one
+    from . import parsers as P
+    P.r1_numbering(ctx, rule="R6")
